@@ -15,6 +15,7 @@ from .helpers_r2 import *
 from .c23 import data_sites, STORE_RX
 
 EXPLANATION = __doc__
+TECHNIQUE = "static analysis of rustc MIR facts: dominance/guard and value-provenance rules plus exact symbolic decision tables of loop-free guard functions (exhaustive over weak orderings)"
 
 READ_RX = r"::(get|get_cf|get_pinned_cf|get_from_batch_and_db_cf|get_from_batch_and_db|get_from_batch_cf)$"
 FALLBACK_RX = r"option::Option::(unwrap_or_else|or_else|unwrap_or|or)$"
